@@ -46,12 +46,26 @@ VIOLATION_WHAT = {
 }
 
 
+def tlc_check(module, cfg, **kw):
+    """vlib.tlc_check, but a TLC process that disappears without reporting anything (killed from outside while the
+    machine is shared) is started again before the run counts as inconclusive."""
+    for _ in range(2):
+        res = vlib.tlc(module, cfg, **kw)
+        if res.ok or res.violated() or res.errors:
+            break
+        vlib.log("[tlc] %s/%s ended without a verdict (rc %s), retrying" % (module, cfg, res.rc))
+    if not res.ok:
+        raise vlib.Inconclusive("model check %s/%s failed: %s\n%s" % (module, cfg, res.errors[:3], res.out[-3000:]))
+    vlib.log("[tlc] %s/%s: %d generated, %d distinct, depth %d, %.1fs" % (module, cfg, res.generated, res.distinct, res.depth, res.wall))
+    return res
+
+
 def run_model(chk):
     t = chk.tier
     for name in SAFE[t]:
-        res = vlib.tlc_check(MODULE, "%s.safe.%s.%s.cfg" % (MODULE, t, name), timeout=1500)
+        res = tlc_check(MODULE, "%s.safe.%s.%s.cfg" % (MODULE, t, name), timeout=1500)
         chk.add_tlc("safe." + name, res)
-    res = vlib.tlc_check(MODULE, "%s.live.%s.cfg" % (MODULE, t), timeout=1500)
+    res = tlc_check(MODULE, "%s.live.%s.cfg" % (MODULE, t), timeout=1500)
     chk.add_tlc("live", res)
     for cfg, what in BROKEN:
         vlib.tlc_expect_violation(MODULE, "%s.%s.cfg" % (MODULE, cfg), what, timeout=300)
